@@ -173,6 +173,18 @@ func main() {
 		})
 		fmt.Fprintf(&b, "/-- updateGlobalCuntFlowControls has `if !EnableGlobalFlowControl(localConfig) { continue }` -/\n")
 		fmt.Fprintf(&b, "def countPathGuarded : Bool := %v\n", countGuard)
+		// admission plugin: Validate does not skip writes to the status subresource
+		af := g.ParseFile("plugin/admission/upstreamcluster/admission.go")
+		val := lib.FuncDecl(af, "upstreamclusterPlugin", "Validate")
+		if val == nil || len(val.Body.List) == 0 {
+			lib.Fatalf("upstreamclusterPlugin.Validate not found")
+		}
+		statusValidated := false
+		if is, ok := val.Body.List[0].(*ast.IfStmt); ok {
+			statusValidated = exprString(is.Cond) == "shouldIgnore(a) && !isStatusUpdate(a)"
+		}
+		fmt.Fprintf(&b, "/-- the first statement of the plugin's Validate is `if shouldIgnore(a) && !isStatusUpdate(a) { return nil }` -/\n")
+		fmt.Fprintf(&b, "def statusValidated : Bool := %v\n", statusValidated)
 		b.WriteString("end KG.Gen.C16\n")
 		g.Emit("C16.lean", b.String())
 	})
